@@ -1360,6 +1360,10 @@ class Process(StateMachine, persistence.Savable, metaclass=ProcessStateMachineMe
                 next_state = self.create_state(process_states.ProcessState.EXCEPTED, *sys.exc_info()[1:])
                 self._set_interrupt_action(None)
 
+            if isinstance(next_state, process_states.Excepted):
+                # The step failed: the process excepts whatever was requested in the meantime
+                self._set_interrupt_action(None)
+
             if self.has_terminated():
                 # Terminated while the step was in flight (e.g. through fail()), nothing left to do
                 pass
